@@ -297,7 +297,9 @@ class EncoderSelector:
 
         # If we don't accurately know the total amount of matrices, normalize to the lowest imputation ratio
         if not knows_n_mat:
-            df_scores.imp_ratio /= df_scores.imp_ratio.min()
+            min_imp_ratio_all = df_scores.imp_ratio.min()
+            if np.isfinite(min_imp_ratio_all):  # All infinite if there are no valid matrices: inf/inf would give NaN
+                df_scores.imp_ratio /= min_imp_ratio_all
 
         def _return_best_within_priority_area(df_):
             if by_inf_idx:
